@@ -48,6 +48,11 @@ var commonTrusted = []string{
 var importStack []string
 
 func importRules(c *core.Ctx, fromProp string, rename map[string]string) int {
+	return importRulesIf(c, fromProp, rename, nil)
+}
+
+// importRulesIf imports only the obligations accepted by keep.
+func importRulesIf(c *core.Ctx, fromProp string, rename map[string]string, keep func(o *core.Obligation) bool) int {
 	for _, p := range importStack {
 		if p == fromProp {
 			return 0
@@ -73,5 +78,5 @@ func importRules(c *core.Ctx, fromProp string, rename map[string]string) int {
 	sub := c.Sub()
 	sub.Prop = fromProp
 	rs.Run(sub)
-	return c.ImportFrom(sub, rename)
+	return c.ImportFromIf(sub, rename, keep)
 }
